@@ -52,8 +52,10 @@ def check(ctx, rep):
         hd = roles.input_callback(ctx, ci)
         ps, it = ctx.paths(hd, ci, depth=6)
         F = ("param", hd.params[1])
-        OUT = ("attr", ("param", "self"), "out")
-        L = ("attr", ("param", "self"), "lock")
+        OR_ = roles.op_roles(ctx, ci)
+        rep.require(OR_.rest is not None, "%s: the map of outstanding inputs was not identified" % cname)
+        OUT, L, DONE, REST = OR_.OUT, OR_.LOCK, OR_.DONE, OR_.REST
+        REST_[0] = REST
         rest = None
         covered = set()
         for p in ps:
@@ -64,9 +66,9 @@ def check(ctx, rep):
             for e in p.evs("branch"):
                 t, v = e.d
                 s = fmt(t)
-                if t == ("attr", ("param", "self"), "done"):
+                if t == DONE:
                     atoms.setdefault("done", v)
-                elif t == ("attr", ("param", "self"), "fs"):
+                elif t == REST:
                     atoms.setdefault("more", v)
                 elif isinstance(t, tuple) and t[0] == "call" and t[1] == ("attr", F, "cancelled"):
                     atoms.setdefault("cancelled", v)
@@ -75,7 +77,7 @@ def check(ctx, rep):
                 elif isinstance(t, tuple) and t[0] == "call" and t[1] == ("attr", F, "result"):
                     atoms.setdefault("truthy", v)
             # effects
-            dec = [e for e in p.evs("store") if e.d["target"] == ("attr", ("param", "self"), "done") and e.d["value"] == ("const", True)]
+            dec = [e for e in p.evs("store") if e.d["target"] == DONE and e.d["value"] == ("const", True)]
             res = [e for e in p.calls() if terminal_on(e, OUT, it, p) and q.call_name(e) == "set_result"]
             exc = [e for e in p.calls() if terminal_on(e, OUT, it, p) and q.call_name(e) in ("set_exception", "set_exception_info")]
             cxl = [e for e in p.calls() if q.call_name(e) == "cancel" and q.recv(e) == OUT]
@@ -90,8 +92,8 @@ def check(ctx, rep):
                 # removal must not even happen (the input map is not touched after the decision)
                 continue
             # R-ATOMIC
-            tests = [e for e in p.evs("branch") if e.d[0] == ("attr", ("param", "self"), "done")]
-            rem = [e for e in p.events if (e.kind == "del" and e.d["target"][:2] == ("sub", ("attr", ("param", "self"), "fs"))) or (e.kind == "call" and q.call_name(e) in ("pop", "discard", "remove") and q.recv(e) == ("attr", ("param", "self"), "fs"))]
+            tests = [e for e in p.evs("branch") if e.d[0] == DONE]
+            rem = [e for e in p.events if (e.kind == "del" and e.d["target"][:2] == ("sub", REST)) or (e.kind == "call" and q.call_name(e) in ("pop", "discard", "remove") and q.recv(e) == REST)]
             rep.ob("R-ATOMIC", "%s: decided-test, removal and decision under the lock" % cname, bool(tests) and all(q.has_lock(e, L) for e in tests + rem + dec) and len(rem) >= 1 and _one_hold(p, L, tests + rem + dec),
                    "the test of self.done, the removal of the input and the store of the decision must share one hold of self.lock", where_of(hd), trace_of(p))
             for e in res + exc + cxl + cancels:
@@ -151,8 +153,9 @@ def check(ctx, rep):
         cb = r.d["args"][0]
         inner = roles.unwrap(ctx, p, cb, it)
         rep.ob("R-FANOUT", "BoolOperation.__init__: the callback is a method of the operation", isinstance(inner, tuple) and inner[0] == "attr" and inner[1] == ("param", "self") and prog.cls("OrOperation").lookup(inner[2])[1] is not None, "registered callback is %s" % fmt(inner), where_of(init, r.node))
-        outv = p.heap.get(("attr", ("param", "self"), "out"), ("attr", ("param", "self"), "out"))
-        okc = any(c.d["args"] in ((("attr", ("param", "self"), "out"), q.recv(r)), (outv, q.recv(r))) for c in chains)
+        OUT0 = roles.op_roles(ctx, prog.cls("OrOperation")).OUT
+        outv = p.heap.get(OUT0, OUT0)
+        okc = any(c.d["args"] in ((OUT0, q.recv(r)), (outv, q.recv(r))) for c in chains)
         rep.ob("R-FANOUT", "BoolOperation.__init__: chain_cancel(output, input) per input", okc, "cancelling the output would not reach this input", where_of(init, r.node))
     rep.require(saw, "BoolOperation.__init__: registration loop not found")
     for cname2 in ("OrOperation", "AndOperation"):
@@ -162,7 +165,9 @@ def check(ctx, rep):
     _chain_cancel(ctx, rep)
     for fname, cname in (("f_or", "OrOperation"), ("f_and", "AndOperation")):
         fi = prog.fn("bool:" + fname)
-        ps, it = ctx.paths(fi, None, depth=0)
+        # helpers of the module inlined (a shared `start_operation(cls, inputs, ...)` is fine), constructors and
+        # metrics bookkeeping not
+        ps, it = ctx.paths(fi, None, depth=2, inline=lambda callee, ev, path: callee.module is fi.module and callee.owner is None and callee.parent is None)
         kinds = set()
         for p in ps:
             if p.status != "return":
@@ -173,9 +178,10 @@ def check(ctx, rep):
                 rep.ob("R-FANOUT", "%s: a single input is returned as is" % fname, p.value == ("param", fi.params[0]), "returns %s" % fmt(p.value), where_of(fi))
             else:
                 kinds.add("many")
-                a = mk[0].d["args"][0] if mk[0].d["args"] else None
+                a = list(roles.bound(mk[0], prog).values())[0] if roles.bound(mk[0], prog) else None
+                a = q.deref(p, a) if isinstance(a, tuple) else a
                 ok = a == ("bin", "+", ("list", (("param", fi.params[0]),)), ("listof", ("seq", (), ("param", fi.vararg), 0), ())) or (isinstance(a, tuple) and a[0] in ("bin", "list", "seq") and contains(a, ("param", fi.params[0])) and contains(a, ("param", fi.vararg)))
-                rep.ob("R-FANOUT", "%s: the operation is built over all inputs" % fname, ok and isinstance(p.value, tuple) and p.value[0] == "attr" and p.value[2] == "out", "constructed with %s" % (fmt(a) if a else None), where_of(fi, mk[0].node))
+                rep.ob("R-FANOUT", "%s: the operation is built over all inputs" % fname, ok and isinstance(p.value, tuple) and p.value[0] == "attr" and p.value[2] == roles.op_roles(ctx, prog.cls(cname)).out, "constructed with %s" % (fmt(a) if a else None), where_of(fi, mk[0].node))
         rep.require(kinds == {"single", "many"}, "%s: expected single-input and many-input paths" % fname)
 
 
@@ -206,6 +212,9 @@ def _chain_cancel(ctx, rep):
             rep.ob("R-FANOUT", "chain_cancel callback cancels the inner future iff the outer was cancelled", ok2, "outer cancelled=%s but %d cancel calls" % (was, len(cs)), where_of(sub), trace_of(p2))
 
 
+REST_ = [None]
+
+
 def _no_init_inline(callee, ev, path):
     return roles.inline_wrapper_ctor(callee, ev, path)
 
@@ -213,7 +222,7 @@ def _no_init_inline(callee, ev, path):
 def _is_remaining(it_term):
     """iteration over the remaining inputs: list(self.fs.keys()) / self.fs / list(self.fs) (possibly + [out])"""
     for s in subterms(it_term):
-        if s == ("attr", ("param", "self"), "fs"):
+        if s == REST_[0]:
             return True
     return False
 
